@@ -188,6 +188,23 @@ def run_check(pid, tier, seed, wall_cap=None, out_evidence=True, verbose=True):
                 if a.reached.get(c, 0) == 0:
                     harness_errors.append((a.q.qid, f"vacuous: clause {c} never reached"))
 
+    # property-specific solver checks outside the path engine (e.g. the QF_BVFP rescale kernel of C13)
+    extras = []
+    if hasattr(mod, "extra_checks"):
+        extras = mod.extra_checks(ctl, tier, seed) or []
+        for x in extras:
+            if x.get("status") == "inconclusive":
+                inconclusive.append(("extra/" + x["id"], x.get("reason", "")))
+            elif x.get("status") == "violated":
+                rep, detail = mod.replay_extra(x["id"], x["inputs"])
+                if not rep:
+                    harness_errors.append(("extra/" + x["id"], f"solver counterexample does not replay on the real code: {x['inputs']} ({detail})"))
+                else:
+                    v = {"query": "extra/" + x["id"], "clause": x.get("clause", x["id"]), "disc": None, "inputs": x["inputs"],
+                         "detail": detail, "notes": {}}
+                    k = match_known(known, pid, v)
+                    (known_hits if k else violations).append((v, k))
+
     reached_all = _sumdict([a.reached for a in aggs])
     if not inconclusive:
         for c in getattr(mod, "REQUIRED", []):
@@ -295,6 +312,7 @@ def run_check(pid, tier, seed, wall_cap=None, out_evidence=True, verbose=True):
                 "inconclusive": [{"query": q, "reason": r} for q, r in inconclusive][:50],
                 "harness_errors": [{"query": q, "reason": r[:2000]} for q, r in harness_errors][:20],
                 "preflight": preflight,
+                "extra_solver_checks": extras,
                 "source_scan": shims.scan_sources(root),
                 "exit_code": code,
             },
@@ -334,6 +352,11 @@ def replay(path):
     from symx.run import Runner
     ctl = shims.ShimControl()
     mod, qs = load_queries(body["property"], body["tier"], body["seed"])
+    if body["query"].startswith("extra/"):
+        rep, detail = mod.replay_extra(body["query"][6:], body["inputs"])
+        print("replay", body["property"], body["query"], "inputs", body["inputs"], "->", detail)
+        print("REPRODUCED" if rep else "NOT-REPRODUCED")
+        return EXIT_VIOLATION if rep else EXIT_OK
     q = next((q for q in qs if q.qid == body["query"]), None)
     if q is None:
         print("replay: query id not found:", body["query"])
